@@ -4,7 +4,7 @@ import ast
 import re
 from fractions import Fraction as F
 
-from .. import bary, roles, shapesets as S
+from .. import bary, idxspace, roles, shapesets as S
 from ..core import AnalysisError
 from ..src import unparse
 
@@ -566,6 +566,7 @@ def run(ctx):
     bary_inherit(ctx)
     bary_family(ctx)
     compat(ctx)
+    idxspace.index_spaces(ctx)
 
 
 def _builder_chains(fn):
